@@ -36,6 +36,16 @@ Theorem C02_dagger : forall (K : Type) (O : Ops K), ring_of K O -> consts_ok K O
 Proof. intros K O R [H1 H2]. exact (decompose_local_sound K R H1 H2). Qed.
 Print Assumptions C02_dagger.
 
+(* 2a. `.H` is an involution on commands (Gate.H flips the flag of a copy): an even number of daggers is no dagger,
+       an odd number is one. *)
+Theorem C02_double_dagger : forall (K : Type) (O : Ops K) (c : cmd K),
+  flip K (flip K c) = c /\ doc_cmd K (flip K (flip K c)) = doc_cmd K c
+  /\ doc_cmd K (flip K (flip K (flip K c))) = doc_cmd K (flip K c).
+Proof.
+  intros K O [g w d]. unfold flip. simpl. rewrite Bool.negb_involutive. repeat split; reflexivity.
+Qed.
+Print Assumptions C02_double_dagger.
+
 (* 2b. ... and `ainv` really is the inverse: every documented transformation is symplectic. *)
 Theorem C02_doc_symplectic : forall (K : Type) (O : Ops K), ring_of K O -> consts_ok K O ->
   forall g : gate K, wf K g ->
